@@ -1043,21 +1043,22 @@ Proof.
   destruct IB as [IB LB].
   assert (O0 : forall x, In x (if fc =? 0 then [Factory] else []) -> x = Factory /\ fc = 0).
   { intros x. destruct (fc =? 0) eqn:E; [intros [<-|[]]; split; auto; apply Z.eqb_eq; auto|intros []]. }
-  assert (O9 : forall x, In x (if fc =? 0 then [CfgFlash 1 1 15] else []) -> x = CfgFlash 1 1 15).
-  { intros x. destruct (fc =? 0); [intros [<-|[]]; auto|intros []]. }
+  assert (O9 : forall x, In x (if fc =? 0 then [CfgFlash 1 1 15] else if (2 <=? fc) && (fc <=? 4) then [CfgFlash 1 1 b] else []) ->
+                         exists m, x = CfgFlash 1 1 m).
+  { intros x. destruct (fc =? 0); [intros [<-|[]]; eauto|]. destruct ((2 <=? fc) && (fc <=? 4)); [intros [<-|[]]; eauto|intros []]. }
   destruct (incomplete b) eqn:EI.
   - destruct (cfgmode_start sb) as [s1 o] eqn:EC. intros H; inversion H; subst.
     destruct (cfgmode_start_out _ _ _ EC) as [[A B]|(A & B & C & D & E & F & G & I)]; subst.
     + split; [auto|]. split; [auto|]. split; [auto|]. intros Hf. apply in_app_or in Hf. destruct Hf as [Hf|Hf]; [apply O0 in Hf; tauto|].
-      cbn in Hf. apply O9 in Hf. discriminate.
+      cbn in Hf. apply O9 in Hf. destruct Hf; discriminate.
     + split.
       { destruct IB as [In Ii]. split; [rewrite D; exact In|]. intros i x Gx. rewrite C in Gx. apply (linv_frame sb); auto. }
       split; [destruct LB; split; congruence|]. split; [auto|].
       intros Hf. apply in_app_or in Hf. destruct Hf as [Hf|Hf]; [apply O0 in Hf; tauto|].
-      apply in_app_or in Hf. destruct Hf as [[Hf|[]]|Hf]; [discriminate|apply O9 in Hf; discriminate].
+      apply in_app_or in Hf. destruct Hf as [[Hf|[]]|Hf]; [discriminate|apply O9 in Hf; destruct Hf; discriminate].
   - intros H; inversion H; subst. split; [auto|]. split; [auto|]. split.
-    + intros t Ht. apply in_app_or in Ht. destruct Ht as [Ht|Ht]; [apply O0 in Ht; destruct Ht; discriminate|apply O9 in Ht; discriminate].
-    + intros Hf. apply in_app_or in Hf. destruct Hf as [Hf|Hf]; [apply O0 in Hf; tauto|apply O9 in Hf; discriminate].
+    + intros t Ht. apply in_app_or in Ht. destruct Ht as [Ht|Ht]; [apply O0 in Ht; destruct Ht; discriminate|apply O9 in Ht; destruct Ht; discriminate].
+    + intros Hf. apply in_app_or in Hf. destruct Hf as [Hf|Hf]; [apply O0 in Hf; tauto|apply O9 in Hf; destruct Hf; discriminate].
 Qed.
 
 (* ------------------------------------------------------------------------------------------------ *)
